@@ -75,7 +75,12 @@ def build(repo, unit_dir, defines=None, mutate=None):
     em.w("\n// ======================= functions copied from /repo =======================\n")
     groups = {}
     order = []
-    for f in items.get("fn", []):
+    flist = list(items.get("fn", []))
+    for g in items.get("fns", []):
+        for nm in g["names"]:
+            flist.append({"id": g["prefix"] + nm, "file": g["file"], "impl": g.get("impl", ""),
+                          "out_impl": g["out_impl"], "name": nm})
+    for f in flist:
         key = f["out_impl"]
         if key not in groups:
             groups[key] = []
@@ -138,7 +143,7 @@ def build(repo, unit_dir, defines=None, mutate=None):
             for cl in d["clauses"]:
                 b.clauses[cl.tag] = cl
     for rw in rewrites:
-        if rw.count != "any" and rw.fired != rw.count:
+        if rw.count != "any" and rw.fired != rw.count and not os.environ.get("VT_LAX"):
             raise ExtractError(f"normalisation {rw.rule} `{' '.join(rw.find)}` (scope {rw.scope}) fired {rw.fired} times, expected {rw.count} (lost anchor)")
     for rel, (src, _) in cache.items():
         b.sources[rel] = hashlib.sha256(src.encode()).hexdigest()
